@@ -120,6 +120,27 @@ def run_check(ctx):
         if bad:
             nfail += 1
             ctx.violation('C14: ' + bad, {'stage': 'search', 'script': [l], 'output': [o], 'replay_cmd': 'printf "%s\\n" | /verif/.cache/target-ark/release/h_ark' % l}, classify(op, margs, hint), found_input=True)
+    # an invalid encoding can never be used as an element in circuit, whatever operation first needs it and whatever the hints: every wrapper
+    # operation on a variable allocated from an invalid field element (negative, non-square, s = -1), honest hints and the hints (true, +-1)
+    try:
+        b0 = pool.base[0]; inv = [1, 3, 2, 4, Q - 1, Q - 2]
+        inv = [s_ for s_ in inv if pyref.decode_spec(s_) is None]
+        hl = []; hm = []
+        for s_ in inv:
+            for h in ('i', 'u', 'q', 'a', 'e', 'v', 'd', 'n', 'iu', 'qc'):
+                for mode in ('witness', 'input'):
+                    for hint in (None, (1, 1), (1, Q - 1)):
+                        hl.append('r1.hist.enc %s %x %s %s%s' % (mode, s_, E(b0), h, '' if hint is None else ' hint=%d,%x' % hint)); hm.append((s_, h, hint))
+        ho = harness.run_script('ark', hl)
+        ctx.cov['evaluations'] += len(hl); ctx.cov['distinct_nontrivial'] += len(hl)
+        for l, o, (s_, h, hint) in zip(hl, ho, hm):
+            d = G.parse_r1(o)
+            if d.get('sat') == '1':
+                key = classify('r1.decode', [s_], hint)
+                ctx.violation('C14: %s is satisfied although %x is not a valid encoding (the operation needs the element)' % (l[:80], s_),
+                              {'stage': 'search', 'script': [l], 'output': [o]}, key, found_input=True)
+    except RuntimeError as e:
+        ctx.violation('harness failed: %s' % str(e)[:300], {'stage': 'build', 'log': str(e)[-3000:]}, {'stage': 'build'}, found_input=False)
     if broken and not ctx.violations:
         for desc, replay in broken[:5]:
             ctx.violation('C14 is no longer shown to hold — %s; no failing input (beyond the recorded finding) found on the implementation' % desc, replay,
